@@ -615,7 +615,7 @@ impl<'a> Ctx<'a> {
             return Ok(if self.monadic { "Val None".into() } else { "None".into() });
         }
         if !self.spec.effects.is_empty() && !self.spec.effects_ret {
-            return Ok(if self.monadic { "Val []".into() } else { "[]".into() });
+            return Ok(if self.monadic { "Val (@nil call)".into() } else { "(@nil call)".into() });
         }
         let mut v = match self.spec.ret_wrap {
             // a plain integer the function returns next to results of opaque calls of abstract type R
